@@ -4,7 +4,8 @@ it replaces the text between the BENIGNTABLE markers of DESIGN.md."""
 import glob, json, os, re, sys
 here = os.path.dirname(os.path.dirname(os.path.abspath(__file__)))
 rows = []
-for d in sorted(glob.glob(os.path.join(here, "benign", "*"))):
+PREFIX = "bn2-" if "--pass2" in sys.argv else "bn1-"
+for d in sorted(glob.glob(os.path.join(here, "benign", PREFIX + "*"))):
     m = json.load(open(os.path.join(d, "meta.json")))
     notes = ""
     if os.path.exists(os.path.join(d, "notes.md")):
@@ -24,10 +25,12 @@ tab = "\n".join(out) + "\n"
 if "--update" in sys.argv:
     p = os.path.join(here, "DESIGN.md")
     s = open(p).read()
-    if "BENIGN_TABLE" in s:
-        s = s.replace("BENIGN_TABLE", "<!-- BENIGNTABLE:BEGIN -->\n" + tab + "<!-- BENIGNTABLE:END -->")
+    tag = "BENIGN2TABLE" if PREFIX == "bn2-" else "BENIGNTABLE"
+    ph = "BENIGN2_TABLE" if PREFIX == "bn2-" else "BENIGN_TABLE"
+    if ph in s:
+        s = s.replace(ph, "<!-- %s:BEGIN -->\n" % tag + tab + "<!-- %s:END -->" % tag)
     else:
-        s = re.sub(r"<!-- BENIGNTABLE:BEGIN -->.*?<!-- BENIGNTABLE:END -->", "<!-- BENIGNTABLE:BEGIN -->\n" + tab + "<!-- BENIGNTABLE:END -->", s, flags=re.S)
+        s = re.sub(r"<!-- %s:BEGIN -->.*?<!-- %s:END -->" % (tag, tag), lambda m_: "<!-- %s:BEGIN -->\n" % tag + tab + "<!-- %s:END -->" % tag, s, flags=re.S)
     open(p, "w").write(s)
     print("rows:", len(rows))
 else:
